@@ -17,7 +17,7 @@
   `%` (their trap points are C10's; `TraceSpec` has no trapping operator); a
   compound assignment with a non-arithmetic operator; an `if` without `else`
   whose block has a final expression (TraceSpec demands the value `()` there,
-  Spec discards any value).
+  Spec discards any value); values of `enum` types and `match`.
 
   `Lemmas/C01Agree.lean` proves that on this fragment the two reference
   semantics agree (Spec's value is TraceSpec's value); `Props/C01Lower.lean`
@@ -118,6 +118,9 @@ def trE (fs : List String) : List String → Spec.Expr → Option TraceSpec.Expr
     | _, _, _ => none
   | _, .ret none => some (.ret (.lit .unit))
   | ρ, .ret (some e) => (trE fs ρ e).map .ret
+  -- values of enum types and `match` are outside the fragment
+  | _, .ctor _ _ _ => none
+  | _, .match_ _ _ => none
 
 /-- call arguments, left to right -/
 def trArgs (fs : List String) : List String → List Spec.Expr → Option TraceSpec.Exprs
